@@ -35,15 +35,18 @@ def build_case(u):
         # otherwise matching replies that must be rejected *and must not move the session's view of boots/time*:
         # from a foreign engine, below the session's security level (auth flag clear / sent in clear), or with a bad MAC.
         # With only=True nothing acceptable follows, the call times out, and the next request shows what was adopted.
-        inject = (None, None, None, None, "foreign", "unauth", "clear", "badmac")[u.below(8)]
+        inject = (None, None, None, "foreign_report", "foreign", "unauth", "clear", "badmac")[u.below(8)]
         reqs.append({"op": op, "foreign": inject == "foreign", "inject": inject, "only": inject is not None and u.below(4) == 0})
     times = [TIMES[u.below(len(TIMES))] if u.below(3) else (u.bits(4) >> 1, u.bits(4) >> 1) for _ in range(nreq + 3)]
     ctx = (None, None, b"", b"\x80\x00\x00\x01ctx")[u.below(4)]  # contextEngineID of the Reports: None = the agent's engine id
-    return {"cfg": cfg, "engine": engine, "discovered": discovered, "mode": mode, "driver": driver, "reqs": reqs, "times": times, "report_ctx": ctx}
+    # the first discovery datagram may be lost: refresh() then times out and the application retries it on the same session
+    lost_probe = discovered and mode == "refresh" and u.below(3) == 0
+    return {"cfg": cfg, "engine": engine, "discovered": discovered, "mode": mode, "driver": driver, "reqs": reqs, "times": times, "report_ctx": ctx,
+            "lost_probe": lost_probe}
 
 
 def describe(c):
-    d = {k: c[k] for k in ("engine", "discovered", "mode", "driver", "reqs", "times", "report_ctx")}
+    d = {k: c.get(k) for k in ("engine", "discovered", "mode", "driver", "reqs", "times", "report_ctx", "lost_probe")}
     d["cfg"] = c["cfg"].describe()
     d["_cfg"] = gen.cfg_to_json(c["cfg"])
     return d
@@ -86,6 +89,14 @@ def execute(G, c):
         is_probe = lenient is not None and lenient.get("pdu_tag") == rb.PDU_GET and not lenient.get("varbinds")
         if not st["known"] and raw["engine_id"] == b"":
             is_probe = True
+        if is_probe and c.get("lost_probe") and not st.get("dropped"):
+            st["dropped"] = True
+            kinds.append("probe0-lost")
+            try:
+                wire.check_structure(pre, ("refresh",), d)
+            except core.Failure as f:
+                problems.append(f)
+            return []
         if is_probe:
             kind = "probe" if st["known"] else "probe0"
             call = ("refresh",)
@@ -136,7 +147,10 @@ def execute(G, c):
             inject = "unauth"
         bad = [rb.varbind(rb.enc_oid(name), rb.enc_int(666))]
         fb, ft = b ^ 0x55, t ^ 0x33
-        if inject == "foreign":
+        if inject == "foreign_report":
+            # a Report from another engine (matching msgID and user): the session knows its engine id and must keep it
+            outs.append(ag.build_report(post_cfg, m, FOREIGN, fb, ft))
+        elif inject == "foreign":
             fcfg = gen.cfg_from_json(gen.cfg_to_json(post_cfg))
             outs.append(ag.build_reply(fcfg, m, bad, engine_id=FOREIGN, boots=fb, time=ft))
         elif inject == "unauth":
@@ -159,7 +173,7 @@ def execute(G, c):
         kw["use_with"] = True
         run_calls = calls
     elif c["mode"] == "refresh":
-        run_calls = [("refresh",)] + calls
+        run_calls = ([("refresh",)] if c.get("lost_probe") else []) + [("refresh",)] + calls
     else:
         run_calls = calls
     # the high-level constructors take the engine id the caller knows (none when discovering); localized keys are for E
@@ -172,7 +186,12 @@ def execute(G, c):
         raise core.Failure("message-count", "%s: %d of %d requests seen (message kinds %r); outcomes %r" % (info, st["req"], len(req_plan), kinds, outs))
     if c["discovered"] and st["probes"] < 1:
         raise core.Failure("no-discovery-probe", "%s: engine id unknown yet no probe was sent (%r)" % (info, kinds))
-    res = outs[1:] if c["mode"] == "refresh" else outs
+    skip = (2 if c.get("lost_probe") else 1) if c["mode"] == "refresh" else 0
+    if c.get("lost_probe") and not (outs[0].kind == "exc" and isinstance(outs[0].exc, TimeoutError)):
+        raise core.Failure("lost-probe-outcome", "%s: refresh() whose discovery datagram was lost gave %r" % (info, outs[0]))
+    if c["mode"] == "refresh" and outs[skip - 1].kind != "ok":
+        raise core.Failure("refresh-failed", "%s: refresh() gave %r (message kinds %r)" % (info, outs[skip - 1], kinds))
+    res = outs[skip:]
     for k, o in enumerate(res):
         want = 1000 + k
         if k in expect_timeout:
@@ -214,7 +233,7 @@ def run_with_user(G, c, hl_cfg, E, run_calls, handler, kw):
     finally:
         drivers.sync_session, drivers.async_session = orig_sync, orig_async
     s = checked.get("session")
-    if s is not None and all(o.kind == "ok" for o in outs) and (c["discovered"] or True):
+    if s is not None and all(o.kind == "ok" for o in outs[(1 if c.get("lost_probe") else 0):]) and not any(r.get("only") for r in c["reqs"]):
         try:
             got = s.get_engine_id()
         except Exception as e:  # noqa: BLE001
@@ -241,6 +260,7 @@ def run(rep, tier):
                  classes=["discovered" if c["discovered"] else "engine_given", "mode:" + c["mode"], "driver:" + c["driver"],
                           "auth:%s" % c["cfg"].auth, "priv:%s" % c["cfg"].priv, "kt:" + c["cfg"].auth_kt,
                           "ctx:" + ("own" if c["report_ctx"] is None else ("empty" if c["report_ctx"] == b"" else "foreign"))]
+                 + (["lost_first_probe"] if c.get("lost_probe") else [])
                  + ["inject:%s%s" % (r["inject"], "/only" if r["only"] else "") for r in c["reqs"] if r.get("inject")])
         rep.count("messages_checked", nmsg)
 
